@@ -4,6 +4,9 @@ CONSTANTS
   MaxK = 2
   Cap = 1
   CloseOn = "wg"
+  CtxGen = FALSE
+  ContinueOnCtx = FALSE
+  LoopChecksCtx = TRUE
 INVARIANTS TypeOK Conservation CloseAfterDrain EofComplete NoStall AllDone BlockedConsumerReleased NoopCloseStartsNothing
 PROPERTIES Terminates
 CHECK_DEADLOCK FALSE
